@@ -212,3 +212,21 @@ Theorem C10_engine_deserialize_truncated :
 Proof. exact engine_deserialize_truncated. Qed.
 Print Assumptions C10_engine_deserialize_truncated.
 
+
+(* ---- `Engine::deserialize` itself, re-read from src/engine.rs on every run
+   (tools/gen_fragments/c10_engine_deserialize.py -> Generated.LoadGen: its statements in source
+   order), run over the model's engine with the decode outcome as a parameter: a REJECTED buffer
+   returns the engine exactly as it was — nothing is assigned, and the enabled tags are only copied,
+   before the decode has succeeded; an accepted one gives Wire_Model.install ---- *)
+From Adb Require Struct_Load_Proofs.
+Theorem C10_src_rejected_load_changes_nothing :
+  forall (build_list : list rule -> bool -> bucket_map) (e : engine),
+  Struct_Load_Proofs.interp_load build_list e None = Some (e, false).
+Proof. exact Struct_Load_Proofs.rejected_load_changes_nothing. Qed.
+Print Assumptions C10_src_rejected_load_changes_nothing.
+
+Theorem C10_src_accepted_load_is_install :
+  forall (build_list : list rule -> bool -> bucket_map) (e : engine) (w : wire),
+  Struct_Load_Proofs.interp_load build_list e (Some w) = Some (install build_list e w, true).
+Proof. exact Struct_Load_Proofs.accepted_load_is_install. Qed.
+Print Assumptions C10_src_accepted_load_is_install.
